@@ -6,7 +6,8 @@ driver ops of C12 (prefix `c12.`)
 `c12.run <roles> [@<schedule, ignored>] <rec> <rec> …`
 * roles: comma separated, thread id = position: `wca` writer, body appends its id, commits; `wcr` writer, body resets the
   content to `[id]`, commits; `wra` writer, appends, rolls back; `wcn` writer, changes nothing, "commits" (the code takes
-  the rollback path); `rd` reader.
+  the rollback path); `rd` reader.  `wwa` = `wca` through `with txn:`; `wxa` = `wra` through an exception in the `with` body;
+  `wda` = `wca` followed by refused second ends; `rdw` = `rd` through `with`.
 * rec: `<tid>:<label>`: one record per *visible* step of the implementation, in execution order
   (`acq rel new.E app.E wait.E set.E pop.E txn+ txn- wev- ver nod rd+ rd- ret rret seen`), plus `<tid>:blk`
   (the thread is blocked in `acquire`/`wait`) and `0:fin`.
@@ -33,7 +34,8 @@ def showState (s : State) : String :=
     ++ "N" ++ showList s.nodes ++ "R" ++ showList (sortU s.readers)
 
 def parseRole (s : String) : Option (Role × Nat) :=
-  if s = "wca" then some (.writer true, 0) else if s = "wcr" then some (.writer true, 1)
+  if s = "wca" ∨ s = "wwa" ∨ s = "wda" then some (.writer true, 0) else if s = "wcr" then some (.writer true, 1)
+  else if s = "wxa" then some (.writer false, 0) else if s = "rdw" then some (.reader, 2)
   else if s = "wra" then some (.writer false, 0) else if s = "wcn" then some (.writer false, 2)
   else if s = "rd" then some (.reader, 2) else none
 
